@@ -287,6 +287,138 @@ class DataOff(Part):
         return None
 
 
+class DefaultNs(Part):
+    """A template-language namespace bound as the DEFAULT namespace
+    (xmlns="<uri>") on an element or an ancestor: unprefixed elements are
+    then language elements (their tags never appear) and their unprefixed
+    attributes are statements; the declaration itself never appears.  Every
+    case is also rendered in the prefixed spelling, which must give the
+    same text."""
+    name = "defaultns"
+    examples = {"quick": 250, "thorough": 5000}
+
+    U = {"tal": TEMPLATE_URIS[0], "metal": TEMPLATE_URIS[1],
+         "i18n": TEMPLATE_URIS[2], "meta": TEMPLATE_URIS[3]}
+    # kind -> (namespace, statements, body, expected)
+    KINDS = {
+        "repeat": ("tal", ' repeat="i range(2)"', "x${i}", "x0x1"),
+        "content": ("tal", " content=\"'v'\"", "d", "v"),
+        "replace": ("tal", " replace=\"'r'\"", "d", "r"),
+        "cond_false": ("tal", ' condition="False"', "c", ""),
+        "cond_true": ("tal", ' condition="True"', "c", "c"),
+        "define": ("tal", " define=\"a 'A'\"", "${a}", "A"),
+        "omit": ("tal", ' omit-tag=""', "o", "o"),
+        "two": ("tal", " define=\"a 'A'\" repeat=\"i 'ab'\"", "${a}${i}",
+                "AaAb"),
+        "plain": ("tal", "", "p ${1 + 1}", "p 2"),
+        "macro": ("metal", ' define-macro="m"', "M", "M"),
+        "translate": ("i18n", ' translate=""', "Hello", "[Hello]"),
+        "domain": ("i18n", ' domain="d"',
+                   '<h:i xmlns:h="urn:h" i18n:translate="">Hi</h:i>',
+                   '<h:i xmlns:h="urn:h">[Hi]</h:i>'),
+        "interp_off": ("meta", ' interpolation="false"', "${x}", "${x}"),
+    }
+
+    def strategy(self, tier):
+        return st.fixed_dictionaries({
+            "kind": st.sampled_from(sorted(self.KINDS)),
+            "name": st.sampled_from(["block", "x", "div", "p", "Case"]),
+            "where": st.sampled_from(["self", "self", "ancestor",
+                                      "foreign_prefixed"]),
+            "child": st.sampled_from(["", "", "reset", "prefixed", "bare"]),
+            "pre": st.sampled_from(["", "a ", "<b>b</b>"]),
+            "post": st.sampled_from(["", " z", "<u/>"]),
+            "selfclose_sibling": st.booleans(),
+        })
+
+    def build(self, case):
+        """(default-namespace source, prefixed source, expected text)"""
+        ns, stmts, body, want = self.KINDS[case["kind"]]
+        uri = self.U[ns]
+        name = case["name"]
+        child_d = child_p = child_out = ""
+        if ns == "tal" and case["kind"] in ("plain", "define", "omit",
+                                            "cond_true"):
+            c = case["child"]
+            if c == "reset":
+                # an element that binds the default namespace to something
+                # else again is an ordinary element (declaration preserved)
+                child_d = child_p = ('<q xmlns="urn:other" '
+                                     'tal:content="1 + 2">n</q>')
+                child_out = '<q xmlns="urn:other">3</q>'
+            elif c == "prefixed":
+                child_d = child_p = "<tal:y replace=\"'Y'\">n</tal:y>"
+                child_out = "Y"
+            elif c == "bare":
+                child_d = "<inner content=\"'I'\">n</inner>"
+                child_p = "<tal:inner content=\"'I'\">n</tal:inner>"
+                child_out = "I"
+        decl = ' xmlns="%s"' % uri
+        el_p = "<%s:%s%s>%s%s</%s:%s>" % (ns, name, stmts, body, child_p,
+                                          ns, name)
+        if case["where"] == "self":
+            el_d = "<%s%s%s>%s%s</%s>" % (name, decl, stmts, body, child_d,
+                                         name)
+        elif case["where"] == "ancestor":
+            el_d = "<w%s><%s%s>%s%s</%s></w>" % (decl, name, stmts, body,
+                                                 child_d, name)
+        else:
+            # the declaration sits on an element that has a foreign prefix:
+            # the element stays, the declaration goes
+            el_d = '<f:g xmlns:f="urn:f"%s><%s%s>%s%s</%s></f:g>' % (
+                decl, name, stmts, body, child_d, name)
+            el_p = '<f:g xmlns:f="urn:f">%s</f:g>' % el_p
+        out = want + (child_out if want or case["kind"] != "cond_false"
+                      else "")
+        if case["where"] == "foreign_prefixed":
+            out = '<f:g xmlns:f="urn:f">%s</f:g>' % out
+        sib = '<br xmlns="urn:s"/>' if case["selfclose_sibling"] else ""
+        tail = ""
+        if case["kind"] == "macro":
+            # used through the other spelling, after the definition
+            tail = "<metal:u use-macro=\"macros['m']\"/>"
+            out_tail = "M"
+        else:
+            out_tail = ""
+        wrap = "<div>%s%s%s%s%s after</div>"
+        return (wrap % (case["pre"], sib, el_d, tail, case["post"]),
+                wrap % (case["pre"], sib, el_p, tail, case["post"]),
+                wrap % (case["pre"], sib, out, out_tail, case["post"]))
+
+    def nontrivial(self, case):
+        return True
+
+    def labels(self, case):
+        yield self.KINDS[case["kind"]][0]
+        yield "where_" + case["where"]
+
+    def sample(self, case):
+        return {"source": self.build(case)[0]}
+
+    def oracle(self, case):
+        from chameleon import PageTemplate
+        d, p, want = self.build(case)
+        res = {}
+        for k, src in (("default_ns", d), ("prefixed", p)):
+            o = run(PageTemplate, src,
+                    translate=lambda m, **kw: "[%s]" % m)
+            if o.ok:
+                o = run(o.value.render)
+            res[k] = ("out", o.value) if o.ok else ("exc", o.exc_name)
+        detail = {"default_ns": d, "prefixed": p, "results": res,
+                  "expected": want}
+        if res["prefixed"] != ("out", want):
+            return Mismatch("defaultns:prefixed spelling differs from the "
+                            "expected text", detail)
+        if res["default_ns"] != ("out", want):
+            if res["default_ns"][0] == "out" and any(
+                    u in res["default_ns"][1] for u in TEMPLATE_URIS):
+                return Mismatch("defaultns:declaration leaks", detail)
+            return Mismatch("defaultns:default-namespace spelling differs",
+                            detail)
+        return None
+
+
 CHECK = Check(
     "C18", "exploration",
     rule=("generated templates (TAL statements, tal:-namespace elements with "
@@ -297,7 +429,7 @@ CHECK = Check(
           "data- attributes for a random subset of each element's statements, "
           "default with the data option on); non-trivial = an element with "
           ">= 2 statements and a foreign attribute present; distinct by sha1"),
-    parts=[Spelling(), DataOff(), NsScope()],
+    parts=[Spelling(), DataOff(), NsScope(), DefaultNs()],
     assumptions=[
         "only the TAL namespace is re-spelled here; METAL and I18N "
         "re-spellings are part of C09 / C10",
